@@ -1,6 +1,7 @@
 import LzmaVerif.Proofs.XzForged
 import LzmaVerif.Proofs.LzipFile
 import LzmaVerif.Proofs.Total
+import LzmaVerif.Proofs.ScanShift
 /-!
 # C04 — corrupted XZ/LZIP input is never returned as valid different data
 
@@ -36,6 +37,7 @@ agree.  Theorems about the models, for EVERY input byte string:
   outside a member (each member is then decoded by an `LZIPReader`, to which the theorems above apply).  Before the
   repair of `scan_members` up to 19 bytes in front of the first member were ignored (a three-member file with
   its first member cut down to its last 10 bytes was read as `Ok` with the data of members 2 and 3).
+  `lzip_mt_scan_rejects_leading_junk` – 1..19 bytes in front of a file the scan accepts are an error.
 
 What no reader can exclude is a corruption that also matches the 32/64/256-bit check: "is the original"
 follows from these theorems under the hypothesis that the check separates the original from the output.
@@ -151,6 +153,19 @@ theorem lzip_mt_scan_accepts_only_tiled_files (file : List Nat) (ms : List Membe
   refine ⟨h1, h2, h3, ?_, h4⟩
   have := h2.sum_sizes
   omega
+
+/-- 1..19 bytes of anything in front of a file that `scan_members` accepts are reported (`InvalidData`, "Data in
+    front of the first LZIP member"); the unrepaired scan answered `Ok` with the members of `rest`.  (From 20 bytes on
+    the bytes in front are read as a trailer: the verdict depends on them, and the theorem above says what an
+    acceptance then means.) -/
+theorem lzip_mt_scan_rejects_leading_junk (junk rest : List Nat) (ms : List Guards.Member)
+    (h : Guards.scanFile rest = .ok ms) (h0 : 0 < junk.length) (h20 : junk.length < 20) :
+    Guards.scanFile (junk ++ rest) = .error .leading :=
+  Total.scanFile_leading_junk junk rest ms h h0 h20
+
+/-- non-vacuity of `lzip_mt_scan_rejects_leading_junk` -/
+example : Guards.scanFile ([9, 9, 9] ++ (Total.exMember ++ Total.exMember)) = .error .leading :=
+  lzip_mt_scan_rejects_leading_junk [9, 9, 9] _ _ Total.exScan (by decide) (by decide)
 
 /-- non-vacuity: a two-member file is accepted, with the members at 0 and 26 -/
 example : Guards.scanFile (Total.exMember ++ Total.exMember) = .ok [⟨0, 26⟩, ⟨26, 26⟩] := Total.exScan
